@@ -87,18 +87,36 @@ func (m Mode) String() string { return [...]string{"none", "post", "pre"}[m] }
 
 // Run executes the operation under the decisions in the given mode.
 func (fx *Fix) Run(opText, opName string, vars []byte, mode Mode, d Decisions) (*fedlab.Result, *PostFetch, *Batch) {
-	ro := &fedlab.RunOptions{OperationName: opName}
-	var pf *PostFetch
-	var ba *Batch
+	res, pf, ba, _ := fx.RunHooks(opText, opName, vars, mode, d, Hooks{})
+	return res, pf, ba
+}
+
+// options: the execution options of (mode, d, hooks).
+func options(mode Mode, d Decisions, h Hooks) (opts []engine.ExecutionOptions, pf *PostFetch, ba *Batch, lim *Limiter) {
+	if h.RateLimit > 0 && mode != None {
+		lim = &Limiter{Reject: h.RateLimit == 2}
+	}
 	switch mode {
 	case Post:
-		pf = &PostFetch{D: d}
-		ro.ExecutionOptions = []engine.ExecutionOptions{engine.WithAuthorizer(pf)}
+		pf = &PostFetch{D: d, Lim: lim}
+		opts = append(opts, engine.WithAuthorizer(pf))
 	case Pre:
-		ba = &Batch{D: d}
-		ro.ExecutionOptions = []engine.ExecutionOptions{engine.WithPreFetchFieldAuthorizer(ba)}
+		ba = &Batch{D: d, Lim: lim}
+		opts = append(opts, engine.WithPreFetchFieldAuthorizer(ba))
 	}
-	return fx.Lab.Run(opText, vars, ro), pf, ba
+	if h.Trace {
+		opts = append(opts, engine.WithRequestTraceOptions(resolve.TraceOptions{Enable: true, ExcludeParseStats: true, ExcludeNormalizeStats: true,
+			ExcludeValidateStats: true, ExcludePlannerStats: true, EnablePredictableDebugTimings: true}))
+	}
+	return
+}
+
+// RunHooks is Run under the loader's other pre-fetch hooks.
+func (fx *Fix) RunHooks(opText, opName string, vars []byte, mode Mode, d Decisions, h Hooks) (*fedlab.Result, *PostFetch, *Batch, *Limiter) {
+	ro := &fedlab.RunOptions{OperationName: opName}
+	opts, pf, ba, lim := options(mode, d, h)
+	ro.ExecutionOptions = opts
+	return fx.Lab.Run(opText, vars, ro), pf, ba, lim
 }
 
 // FrameWriter records every flushed frame of an incremental (@defer) response.
@@ -123,13 +141,11 @@ func (w *FrameWriter) Error(data []byte) {
 // frames (Lab.Run's writer keeps only what is left after the last flush); the request log of this
 // run is not recorded.
 func (fx *Fix) RunFrames(opText, opName string, vars []byte, mode Mode, d Decisions) ([]byte, error) {
-	var opts []engine.ExecutionOptions
-	switch mode {
-	case Post:
-		opts = append(opts, engine.WithAuthorizer(&PostFetch{D: d}))
-	case Pre:
-		opts = append(opts, engine.WithPreFetchFieldAuthorizer(&Batch{D: d}))
-	}
+	return fx.RunFramesHooks(opText, opName, vars, mode, d, Hooks{})
+}
+
+func (fx *Fix) RunFramesHooks(opText, opName string, vars []byte, mode Mode, d Decisions, h Hooks) ([]byte, error) {
+	opts, _, _, _ := options(mode, d, h)
 	req := &graphql.Request{OperationName: opName, Query: opText}
 	if len(bytes.TrimSpace(vars)) > 0 {
 		req.Variables = json.RawMessage(vars)
